@@ -12,7 +12,8 @@ TECHNIQUE = "exhaustive enumeration of configuration documents against a model d
 RULE = ("VMX: every single device of bus {scsi,sata,ide,nvme} x bus number {0,1,10} x unit {0,1,15} x deviceType {absent and 7 "
         "types} x key casing x file-name form; every pair of devices over the position/type product; triples with every line "
         "order, controller / floppy / ethernet / unrelated keys, comment and blank lines at every position, quoting variants, "
-        "re-assignment of a key (last wins). OVF: every graph with 1-2 File, 0-2 Disk (any fileRef), 0-3 Item over ResourceType "
+        "re-assignment of a key (last wins; two and three assignments in every casing pattern incl. X,y,X); 17 special characters "
+        "(VT FF FS GS RS NEL LS PS NBSP ... '=' '#') at start / middle / end of a disk file name. OVF: every graph with 1-2 File, 0-2 Disk (any fileRef), 0-3 Item over ResourceType "
         "{17,15,14,20,3} x HostResource {ovf:/disk/, ovf:/file/, /disk/} x three namespace spellings. VirtualBox: registries "
         "with <= 3 HardDisk over format x type x nesting depth <= 3 plus DVD / floppy images. PVS: every interleaving of <= 2 "
         "Hdd, <= 2 CdRom, <= 1 Fdd. non-trivial = document with a non-disk device or more than one disk")
@@ -35,10 +36,12 @@ TYPES = [None, "scsi-hardDisk", "ata-hardDisk", "disk", "rawDisk", "cdrom-image"
 DISK_TYPES = {None, "scsi-hardDisk", "ata-hardDisk", "disk", "rawDisk"}
 NAMES = ["a.vmdk", "Virtual Disk 2.vmdk", "ünï-日本.vmdk"]
 CASINGS = ["lower", "camel", "upper"]
+SPECIAL_CHARS = ["\x0b", "\x0c", "\x1c", "\x1d", "\x1e", "\x85", "\u2028", "\u2029", "\xa0", "\u3000", "\t", "=", "#", "\x00",
+                 "\ufeff", "\x7f", "'"]
 
 
 def shards(tier):
-    out = [{"kind": "vmx1"}, {"kind": "vmx-dict"}, {"kind": "vbox"}, {"kind": "pvs"}, {"kind": "vmx-encrypted"},
+    out = [{"kind": "vmx1"}, {"kind": "vmx-chars"}, {"kind": "vmx-dict"}, {"kind": "vbox"}, {"kind": "pvs"}, {"kind": "vmx-encrypted"},
            {"kind": "ovf-interleaved"}]
     out += [{"kind": "vmx2", "slice": [i, 8]} for i in range(8)]
     out += [{"kind": "vmx3", "slice": [i, 4], "full": tier != "quick"} for i in range(4)]
@@ -88,6 +91,15 @@ def run_shard(shard, ctx):
                 continue
             devs = [[*ps[i], TYPES[ts[i]], f"d{i}-" + NAMES[(j + i) % 3]] for i in range(3)]
             run_case({"kind": "vmx", "devs": devs, "casing": CASINGS[j % 3], "extras": j % 4, "order": list(order)}, ctx)
+    elif kind == "vmx-chars":
+        # every character that some line-splitting or whitespace-trimming routine treats specially, at every position of a
+        # disk file name and of a second, non-disk value; the only line separator of the format is LF
+        for ch, where, bus, typ in itertools.product(SPECIAL_CHARS, ("start", "middle", "end", "twice"), ("scsi", "nvme"),
+                                                     (None, "disk", "cdrom-image")):
+            name = {"start": ch + "disk.vmdk", "middle": "my old disk" + ch + "copy-f002.vmdk", "end": "disk.vmdk" + ch,
+                    "twice": "a" + ch + "b" + ch + "scsi0:1.fileName = \"x.vmdk"}[where]
+            run_case({"kind": "vmx", "devs": [[bus, 0, 0, typ, name], ["sata", 1, 1, None, "plain.vmdk"]], "casing": "camel",
+                      "extras": 2}, ctx)
     elif kind == "vmx-dict":
         for c in _dict_cases():
             run_case(c, ctx)
@@ -127,7 +139,7 @@ def _dict_cases():
     keys = ["memsize", "displayName", "SCSI0:0.FILENAME", ".encoding", "a.b.c"]
     vals = ["512", "x y", "ü", ""]
     for k, v1, v2 in itertools.product(keys, vals, vals):
-        for form in range(4):
+        for form in range(6):
             yield {"kind": "vmx-dict", "key": k, "v1": v1, "v2": v2, "form": form}
 
 
@@ -182,13 +194,19 @@ def _do_vmx_dict(case):
         lines = ["", f'{k.lower()}="{v1}"', f'   {k} = "{v2}"   ', "#" + k + ' = "zzz"']
     elif form == 2:
         lines = [f'{k} = "{v1}"', f'other = "1"', f'{k.swapcase()} = "{v2}"', ""]
+    elif form == 4:  # three assignments, spellings X, y, X
+        lines = [f'{k} = "{v1}"', f'{k.swapcase()} = "{v1}-mid"', 'other = "1"', f'{k} = "{v2}"']
+    elif form == 5:  # three assignments, spellings x, Y, Y then x again in between other keys
+        lines = [f'{k.lower()} = "{v2}-0"', f'{k.upper()} = "{v1}"', 'zz = "1"', f'{k.upper()} = "{v1}-2"', f'{k.lower()} = "{v2}"']
     else:
         lines = [f'{k} = "{v2}"']
     text = "\r\n".join(lines) if form == 2 else "\n".join(lines)
     got = VMX.parse(text).attr
     exp = {k.lower(): v2}
-    if form == 2:
+    if form in (2, 4):
         exp["other"] = "1"
+    if form == 5:
+        exp["zz"] = "1"
     return got, exp, form != 3
 
 
